@@ -187,9 +187,9 @@ CHECKS = {
         text="Lean theorems: lane i of a Vmap trace is a coherent callee trace on lane i's arguments and score/retval are per-lane sums/stacks "
              "(corollaries of the GFI invariants, every callee / lane count / axes); layout of a vectorised sampling site: the repaired rule "
              "puts the lane axis first for every sample_shape and lane count, the pre-repair rule only for empty sample_shape (proved "
-             "counterexample). Tie: modular_vmap(f) vs stacking f(slice_i) and vs jax.vmap for deterministic, log-density and sampling "
+             "counterexample); VALUE-LEVEL model of the sample batching rule (arrays, numpy broadcasting, positional / keyword binding, moving the mapped axes, one sampler call): for every signature, positional/keyword mix, in_axes, sample_shape and axis size, when the mapped parameters have the maximal per-lane rank lane i of the result IS what the un-mapped site draws from lane i's parameter slices at lane-specific, pairwise distinct positions of that one call; proved counterexamples for the two repaired defects (keyword rebound positionally; in_axes != 0 not moved) and for the OPEN differing-rank finding (silent mis-pairing / broadcast error); nests of maps agree with the one-level rule. Tie: modular_vmap(f) vs stacking f(slice_i) and vs jax.vmap for deterministic, log-density and sampling "
              "functions (parameter-revealing probe sampler) over in_axes {0,1,-1,2,None,tuples,pytrees}, axis_size given/inferred, sample_shape "
-             "sites, nested maps, scan/cond inside; per-lane independence with real normals; Vmap/repeat combinator sums.",
+             "sites, nested maps, scan/cond inside (also at control-flow depth 2, reverse scans); per-lane independence with real normals; Vmap/repeat combinator sums incl. keyword parameters; a structured probe sampler whose every entry reveals its position in the call and the parameter values it was drawn from, compared entry by entry with the Lean rule model for fixed and random sites (one level and nests) and with the un-mapped site.",
         note=TB + "C08: open finding vmap-differing-rank (per-lane parameter shapes of differing rank raise or mis-pair); independence of lanes' draws is the sampler contract.",
         technique="Lean 4 proof (combinator corollaries + layout model) + differential correspondence against per-slice evaluation",
         design="§3 C08"),
